@@ -1,14 +1,22 @@
 from props_common import COMMON_TRUSTED
+import importlib.util as _ilu, os as _os
+# the key ring is the JSONVerifier of real deployments: its obligations are C06 obligations too
+_sp = _ilu.spec_from_file_location("props_C12_for_C06", _os.path.join(_os.path.dirname(_os.path.abspath(__file__)), "C12.py"))
+_C12 = _ilu.module_from_spec(_sp); _sp.loader.exec_module(_C12)
 
 CONFIG = {
-    "areas": ["signers"],
-    "lean": ["VProps.C06"],
-    "sources": ["VProps/C06.lean", "VModel/Signers.lean", "VModel/Event.lean", "VModel/GoJson.lean", "VModel/Sign.lean", "VModel/Auth.lean"],
+    "areas": ["signers", "keyring"],
+    # of the key-ring area only the operations VerifyEventSignatures goes through (the key-response checks of the fetchers are C12's)
+    "op_filter": {"keyring": ["keyring.verify_jsons", "keyring.was_valid_at"]},
+    "lean": ["VProps.C06", "VProps.C06Ring", "VProps.C12"],
+    "sources": ["VProps/C06.lean", "VModel/Signers.lean", "VModel/Event.lean", "VModel/GoJson.lean", "VModel/Sign.lean", "VModel/Auth.lean",
+                "VProps/C06Ring.lean", "VProps/C12.lean", "VModel/KeyRing.lean", "VProofs/KeyRing.lean"],
     "theorems": [
         "V.C06.columns_eq_spec", "V.C06.required_eq_spec", "V.C06.verify_iff", "V.C06.verify_iff_spec",
         "V.C06.undeterminable_rejects", "V.C06.others_irrelevant", "V.C06.one_bad_fails", "V.C06.bad_sender_rejects",
         "V.C06.no_panic", "V.C06.pseudo_sender_required", "V.C06.pseudo_mapping_signers_valid",
-    ],
+        "V.C06Ring.verify_with_keyring_sound", "V.C06Ring.verify_with_keyring_one_bad", "V.C06Ring.verify_with_keyring_complete",
+    ] + [t for t in _C12.CONFIG["theorems"] if not any(k in t for k in ("checkKeys", "checkVerifyKeys", "publicKey_source", "mapServerKeys", "fetchKeysForServer", "fetchNotaryKeys", "perspective", "fetcher_accepts", "direct_accepts", "notaryValid", "past_valid_until"))],
     "rule": "events of every membership (join/invite/leave/ban/knock/odd) and non-member types x all 16 room versions; senders, "
             "state keys and join_authorised_via_users_server on several domains (ports, IP literals, punycode), malformed IDs "
             "(no sigil, no colon, empty server), non-string / null / case-variant members, v1/v2 event IDs naming other servers or "
@@ -19,7 +27,9 @@ CONFIG = {
             "distinct by op line",
     "nontrivial": lambda op, impl: True,
     "trusted": COMMON_TRUSTED + [
-        "the JSONVerifier (KeyRing: C12; the signature check itself: C02) is an oracle valid(server, ts, rule); redaction is C05's "
+        "the JSONVerifier is an oracle valid(server, ts, rule) in verify_iff; for the real KeyRing the oracle is discharged by the C12 "
+        "model (verify_with_keyring_sound / _complete compose the two) whose correspondence (keyring.verify_jsons ops) runs here too; "
+        "the signature check itself is C02; redaction is C05's "
         "model — the correspondence checks that the message handed to the verifier is RedactEventJSON(event JSON)",
         "gjson.GetBytes(content, key).String(), encoding/json struct decoding of {membership}, spec.NewUserID(sender, true) "
         "modelled (VModel.Signers / VModel.Event)",
